@@ -525,9 +525,10 @@ def initialize_bounds(idx: ProgramIndex, rep: Report):
         if isinstance(n, ast.If):
             t = n.test
             if isinstance(t, ast.Call) and chain(t.func) == "isinstance" and len(t.args) == 2 and isinstance(t.args[0], ast.Name) and t.args[0].id == val:
-                k = src(t.args[1]).split(".")[-1]
-                if k in found:
-                    found[k] = n
+                kinds = [src(e).split(".")[-1] for e in (t.args[1].elts if isinstance(t.args[1], ast.Tuple) else [t.args[1]])]
+                for k in kinds:
+                    if k in found:
+                        found[k] = n
     for kind, node in found.items():
         inst = "gpytorch.module:Module.initialize[%s path]" % kind
         if node is None:
@@ -540,7 +541,7 @@ def initialize_bounds(idx: ProgramIndex, rep: Report):
         def is_bound_check(t) -> bool:
             """not <constraint>.check_raw(<val>)"""
             return isinstance(t, ast.UnaryOp) and isinstance(t.op, ast.Not) and isinstance(t.operand, ast.Call) and isinstance(t.operand.func, ast.Attribute) and t.operand.func.attr == "check_raw" \
-                and isinstance(t.operand.func.value, ast.Name) and t.operand.func.value.id in cnames and len(t.operand.args) == 1 and isinstance(t.operand.args[0], ast.Name) and t.operand.args[0].id == val
+                and isinstance(t.operand.func.value, ast.Name) and t.operand.func.value.id in cnames and len(t.operand.args) == 1 and _is_value_or_conversion(t.operand.args[0], val)
 
         def is_weakening_ok(t) -> bool:
             """<constraint> is not None | <constraint>.enforced"""
@@ -622,6 +623,8 @@ def prior_closures(idx: ProgramIndex, rep: Report):
                     reach = _setting_target(cls, setc)
                     if reach is None:
                         probs.append("setting closure %s does not reach a setter" % src(setc)[:40])
+                    elif not reach.startswith("initialize") and cls.lookup(reach) is None and cls.lookup_setter(reach) is None:
+                        probs.append("the setting closure calls `m.%s(...)`, which %s does not define: sample_from_prior / pyro_load_from_samples for this prior raise AttributeError" % (reach, cls.name))
                     elif reach not in ("_set_" + target, target, "initialize") and not _same_raw(cls, target, reach):
                         probs.append("closure reads `%s` but the setting closure reaches `%s`" % (target, reach))
                 rep.add("C17-5", inst, where, not probs, "closure evaluates to the value of `%s`%s" % (target, " and the setting closure stores to the same parameter" if setc is not None else "") if not probs else "; ".join(probs), {"closure": src(clo)[:80]})
@@ -807,3 +810,21 @@ def sampling_and_writes(idx: ProgramIndex, rep: Report):
     ok = ok_store and reads and writes
     rep.add("C17-6", "gpytorch.module:Module.register_prior", rp.where, ok, "stores (prior, closure, setting closure) under the prior's name; string-named priors read and initialise that very attribute" if ok else
             "register_prior no longer stores the (prior, closure, setting closure) triple under its name, or the closures of a string-named prior do not read/initialise the named attribute (store=%s, reads=%s, writes=%s)" % (ok_store, reads, writes), {})
+
+
+def _is_value_or_conversion(e: ast.AST, val: str) -> bool:
+    """`val`, or a tensor conversion of it (torch.as_tensor(val), torch.tensor(val).to(...)): the checked quantity is the given value"""
+    if isinstance(e, ast.Name):
+        return e.id == val
+    # other names may only appear as the receiver-side metadata of the conversion (`.to(self.__getattr__(name))`, dtype / device)
+    names = {x.id for x in ast.walk(e) if isinstance(x, ast.Name)} - {"torch", "self"}
+    if val not in names:
+        return False
+    inside_to = {y.id for c in ast.walk(e) if isinstance(c, ast.Call) and isinstance(c.func, ast.Attribute) and c.func.attr in ("to", "type_as") for a in list(c.args) + [k.value for k in c.keywords] for y in ast.walk(a) if isinstance(y, ast.Name)}
+    if names - {val} - inside_to:
+        return False
+    # val must be the (first) argument of a conversion, not e.g. an index or an exponent
+    for c in ast.walk(e):
+        if isinstance(c, ast.Call) and (chain(c.func) or "").split(".")[-1] in ("as_tensor", "tensor", "full_like", "new_tensor") and c.args and isinstance(c.args[0], ast.Name) and c.args[0].id == val:
+            return True
+    return False
